@@ -1,22 +1,124 @@
+// Command wmcheck decides the structural obligations of one watermill property
+// from /repo's current source, without running it.
 package main
 
 import (
+	"encoding/json"
+	"flag"
 	"fmt"
 	"os"
+	"strconv"
+	"strings"
 	"time"
 
 	"wmverif/wm"
 )
 
 func main() {
-	t := time.Now()
-	p, err := wm.Load(wm.Config{})
-	if err != nil {
-		fmt.Println(err)
+	prop := flag.String("property", "", "property id (C01..C20)")
+	tier := flag.String("tier", "quick", "quick|thorough")
+	repo := flag.String("repo", "/repo", "repository root")
+	verif := flag.String("verif", "/verif", "verification directory (evidence, known findings)")
+	replay := flag.String("replay", "", "replay file: re-decide only that obligation")
+	noEvidence := flag.Bool("no-evidence", false, "do not write the evidence file")
+	list := flag.Bool("list", false, "list properties")
+	flag.Parse()
+	if *list {
+		fmt.Println(strings.Join(wm.IDs(), " "))
+		return
+	}
+	if t := os.Getenv("VERIF_TIER"); t != "" && !isFlagSet("tier") {
+		*tier = t
+	}
+	seed := 0
+	if s := os.Getenv("VERIF_SEED"); s != "" {
+		seed, _ = strconv.Atoi(s)
+	}
+	var replayKey string
+	if *replay != "" {
+		b, err := os.ReadFile(*replay)
+		if err != nil {
+			fmt.Println("cannot read replay file:", err)
+			os.Exit(2)
+		}
+		var r struct {
+			Property string `json:"property"`
+			Key      string `json:"key"`
+		}
+		if err := json.Unmarshal(b, &r); err != nil {
+			fmt.Println("bad replay file:", err)
+			os.Exit(2)
+		}
+		*prop, replayKey = r.Property, r.Key
+		*noEvidence = true
+	}
+	def := wm.Lookup(*prop)
+	if def == nil {
+		fmt.Printf("unknown property %q (known: %s)\n", *prop, strings.Join(wm.IDs(), " "))
 		os.Exit(2)
 	}
-	fmt.Println(len(p.Pkgs), time.Since(t))
-	for _, r := range p.ModuleRel() {
-		fmt.Println(r, len(p.SrcFuncs(r)))
+	start := time.Now()
+	out := &wm.Outcome{Property: *prop, Tier: *tier, Seed: seed, Extra: map[string]any{}}
+	known, err := wm.LoadKnown(*verif + "/known_findings.json")
+	if err != nil {
+		out.Internal = err.Error()
 	}
+	if out.Internal == "" {
+		if msg := wm.RunCanaries(*verif + "/checker/testdata/canary"); msg != "" {
+			out.Internal = "canary self-test failed: " + msg
+		} else {
+			out.Extra["canaries"] = wm.CanarySummary()
+		}
+	}
+	configs := []wm.Config{{Dir: *repo, Label: "default"}}
+	if *tier == "thorough" {
+		configs = append(configs,
+			wm.Config{Dir: *repo, Label: "tags=race", Tags: []string{"race"}},
+			wm.Config{Dir: *repo, Label: "tags=stress", Tags: []string{"stress"}},
+			wm.Config{Dir: *repo, Label: "GOARCH=386", Env: []string{"GOARCH=386"}},
+		)
+	}
+	for _, cfg := range configs {
+		if out.Internal != "" {
+			break
+		}
+		p, err := wm.Load(cfg)
+		if err != nil {
+			out.Internal = fmt.Sprintf("load [%s]: %v", cfg.Label, err)
+			break
+		}
+		c, err := def.RunOn(p, *tier == "thorough")
+		if err != nil {
+			out.Internal = err.Error()
+			break
+		}
+		out.Merge(c, known)
+	}
+	if replayKey != "" {
+		var keep []wm.Ob
+		for _, ob := range out.Violations {
+			if ob.Key() == replayKey {
+				keep = append(keep, ob)
+			}
+		}
+		out.Violations = keep
+	}
+	out.WallS = time.Since(start).Seconds()
+	if !*noEvidence {
+		if err := out.WriteEvidence(*verif, def.Explanation, def.Assumptions); err != nil {
+			fmt.Println("cannot write evidence:", err)
+			os.Exit(2)
+		}
+	}
+	os.Exit(out.Print(*verif))
+}
+
+func isFlagSet(name string) bool {
+	set := false
+	flag.Visit(func(f *flag.Flag) {
+		if f.Name == name {
+			set = true
+		}
+	})
+	return set
 }
